@@ -1,5 +1,7 @@
 """C04  Variant payload slot joining is lossless and matches the spec."""
 import os
+import re
+import shutil
 import time
 
 from .core import *
@@ -26,6 +28,75 @@ def _validate(op, wd, out):
     return t
 
 
+def core_flat(t):
+    """the core types of a value of type t at pointer width 8 (pointer and length kept apart from the integers)"""
+    k = t["k"]
+    if k in ("bool", "u8", "s8", "u16", "s16", "u32", "s32", "char", "enum"):
+        return ["i32"]
+    if k in ("u64", "s64"):
+        return ["i64"]
+    if k in ("f32", "f64"):
+        return [k]
+    if k in ("string", "list"):
+        return ["ptr", "len"]
+    if k == "flags":
+        return ["i32"] if t["n"] <= 32 else ["i32", "i32"]
+    if k in ("tuple", "record"):
+        return [c for f in t["fs"] for c in core_flat(f)]
+    if k == "none":
+        return []
+    cases = {"variant": lambda: t["cs"], "option": lambda: [{"k": "none"}, t["t"]], "result": lambda: [t["ok"], t["err"]]}[k]()
+    width = max(len(core_flat(c)) for c in cases)
+    return ["i32"] + ["joined"] * width
+
+
+def has_join(t):
+    """does a value of type t contain a variant-like type two of whose cases put different core types into one slot"""
+    k = t["k"]
+    if k in ("list", "option"):
+        if has_join(t["t"]):
+            return True
+    if k in ("tuple", "record"):
+        return any(has_join(f) for f in t["fs"])
+    cases = {"variant": lambda: t["cs"], "result": lambda: [t["ok"], t["err"]]}.get(k, lambda: [])()
+    if any(has_join(c) for c in cases if c["k"] != "none"):
+        return True
+    fl = [core_flat(c) for c in cases]
+    for i in range(max((len(f) for f in fl), default=0)):
+        if len({f[i] for f in fl if i < len(f)}) > 1:
+            return True
+    return False
+
+
+def unit_has_join(u):
+    return any(has_join(p) for p in u["ps"]) or (u["r"]["k"] != "none" and has_join(u["r"]))
+
+
+def _execute(tier, wd, out):
+    """the backends' own Bitcast emitters (perform_cast) executed: the signatures of MC_RustExec whose values contain a joined
+    slot run through the real Rust and C bindings natively, exactly as C05 / C10 do (same host, same judgement); a payload
+    that does not survive the join and the cast back arrives changed"""
+    from . import rexec_run, cexec_run
+    from .rexec_run import sig_shape
+    n = {}
+    for lang, mod, kinds in (("rust", rexec_run, ("lowered-args", "lowered-result", "panic", "not-done", "compile")),
+                             ("c", cexec_run, ("lowered-args", "lowered-result", "dump", "not-done", "compile"))):
+        sub = os.path.join(wd, "exec-" + lang)
+        os.makedirs(sub, exist_ok=True)
+        findings, stats = mod.run_all(tier, sub, unit_filter=unit_has_join)
+        n[lang] = {"signatures": stats["units"], "cases": stats["cases"]}
+        for f in findings:
+            if f["kind"] not in kinds:
+                continue
+            u = f["unit"]
+            det = re.sub(r"\d+", "N", re.sub(r"0x[0-9a-f]+", "0xN", f["detail"]))
+            out.violation(f"exec:{lang}:{f['kind']}:{sig_shape(u['u'])}:{det[:60]}",
+                          f"{lang} bindings, {sig_shape(u['u'])} [{u['cfg']}] case {f.get('case')}: {f['detail'][:400]}",
+                          {"signature": sig_shape(u["u"]), "config": u["cfg"], "wit": u["wit"], "detail": f["detail"]})
+        shutil.rmtree(os.path.join(sub, "units"), ignore_errors=True)
+    return n
+
+
 def run(tier):
     t0 = time.time()
     wd = workdir(PID)
@@ -34,6 +105,7 @@ def run(tier):
     op = _observe(exe, wd)
     t = _validate(op, wd, out)
     summ = (t.tagged.get("SUMMARY") or [{}])[0]
+    executed = _execute(tier, wd, out)
     # the joined payloads are also *executed*: C01's variant vectors run every reachable cast
     # through the interpreter in both directions (lower_flat / lift)
     rc, unlisted = out.finish()
@@ -51,10 +123,13 @@ def run(tier):
                 "widths and that each reachable cast is defined, well typed, equal to reinterpret/zero-extend/wrap and lossless on "
                 "byte-distinct patterns; non-trivial = reachable (case class, slot class) pairs",
         "reachable_pairs": summ.get("reachable"),
+        "backend_emitters_executed": executed,
         "note": "conversions built only from reinterpret / zero-extend / wrap are byte projections, so one pattern with pairwise "
                 "distinct non-zero bytes (plus all-ones and zero) decides equality with the canonical conversion for all 2^32 / "
                 "2^64 inputs; no bit-vector solver is needed for this table",
-    }, ["TLC", "harness/abi-interp/src/c04.rs", "the meaning of each primitive Bitcast name (PrimFromTo in SlotJoin.tla)"],
+    }, ["TLC", "harness/abi-interp/src/c04.rs", "the meaning of each primitive Bitcast name (PrimFromTo in SlotJoin.tla)",
+        "the per-backend Bitcast emitters are executed for Rust and C only (native execution of the real bindings on the joined-slot "
+        "signatures of MC_RustExec, host harness/vhost); MoonBit, C#, C++, D, Go emitters are not executed (no toolchain here)"],
         time.time() - t0, unlisted)
     return rc
 
